@@ -72,6 +72,12 @@ for g, nt, tk, ty, addr in PRODS:
     out += f"        r is Ok <==> {lo} <= {val} <= {hi},      //# {tag} number.accepted_iff_in_the_range_of_its_operand_type\n"
     out += f"        r is Ok ==> r->Ok_0 as int == {res},       //# {tag} number.accepted_with_its_value\n"
     out += "//@end\n\n"
+# the signed nonterminals take over an unsigned literal with its bit pattern; an OFFSET is an address as it stands
+for nt, src, ty, uty in (("s_byte_num", "u_byte_num", "i8", "u8"), ("s_word_num", "u_word_num", "i16", "u16")):
+    out += (f"//@action {G['pp']} {nt} = {src} as nm_pp_{nt}_cast\n//@contract\n//@dropunused\n"
+            f"    ensures r as {uty} == n, //# C14,C11 number.unsigned_literal_keeps_its_bit_pattern\n//@before n as {ty} :: proof {{ assert((n as {ty}) as {uty} == n) by (bit_vector); }}\n//@end\n\n")
+out += (f"//@action {G['pp']} raw_addr = offset as nm_pp_raw_addr_offset\n//@contract\n//@dropunused\n"
+        f"    ensures r == o, //# C14,C11 number.offset_is_the_address_as_it_stands\n//@end\n\n")
 out += "} // verus!\nfn main() {}\n"
 open(os.path.join(os.path.dirname(__file__), "..", "contracts", "verus", "numbers.rs"), "w").write(out)
 print(len(PRODS), "productions")
